@@ -9,6 +9,7 @@
      nibble t p         = table bits 4p .. 4p+3 as a number *)
 From Coq Require Import List NArith Arith Bool.
 From V Require Proofs.ExprsTie3.  (* whole-word regimes, fill_symmetric, text widths: regenerated from the Rust source, equal the model's *)
+From V Require Import Checkers.Check Proofs.CheckSoundText.   (* the extracted checkers and their soundness proofs, pinned at the end of this file *)
 From V Require Import Base.Res Model.Kernels Model.Api Spec.Bfun Proofs.Text.
 Import ListNotations.
 Open Scope N_scope.
@@ -273,3 +274,62 @@ Print Assumptions C09_api_roundtrip.
 Print Assumptions C09_rejects_char.
 Print Assumptions C09_not_hex_digits.
 Print Assumptions C09_rejects_length.
+
+
+(* ---- soundness of the extracted checkers that decide this property's statement on the implementation's results *)
+Theorem C09_checker_bytes_eqb_iff : forall a b,
+  bytes_eqb a b = true <-> a = b.
+Proof. exact CheckSoundText.bytes_eqb_iff. Qed.
+
+Theorem C09_checker_spec_to_hex_eq : forall n t,
+  wf n t -> spec_to_hex n t = to_hex n t.
+Proof. exact CheckSoundText.spec_to_hex_eq. Qed.
+
+Theorem C09_checker_spec_to_bin_eq : forall n t,
+  wf n t -> spec_to_bin n t = to_bin n t.
+Proof. exact CheckSoundText.spec_to_bin_eq. Qed.
+
+Theorem C09_checker_spec_fmt_eq : forall n body,
+  (n < 100)%nat -> spec_fmt n body = fmt_wrap n body.
+Proof. exact CheckSoundText.spec_fmt_eq. Qed.
+
+Theorem C09_checker_spec_display_eq : forall l,
+  (nv l < 100)%nat -> wf (nv l) (tbl l) ->
+  spec_fmt (nv l) (spec_to_hex (nv l) (tbl l)) = D_display l /\
+  spec_fmt (nv l) (spec_to_hex (nv l) (tbl l)) = D_lowerhex l /\
+  spec_fmt (nv l) (spec_to_bin (nv l) (tbl l)) = D_binary l /\
+  spec_to_hex (nv l) (tbl l) = D_to_hex_string l /\
+  spec_to_bin (nv l) (tbl l) = D_to_bin_string l.
+Proof. exact CheckSoundText.spec_display_eq. Qed.
+
+Theorem C09_checker_spec_parse_hex_some : forall n s v,
+  spec_parse_hex n s = Some v <-> exists l, D_from_hex_string n s = Ok (Some l) /\ Order.big (tbl l) = v.
+Proof. exact CheckSoundText.spec_parse_hex_some. Qed.
+
+Theorem C09_checker_spec_parse_hex_none : forall n s,
+  spec_parse_hex n s = None <-> D_from_hex_string n s = Ok None.
+Proof. exact CheckSoundText.spec_parse_hex_none. Qed.
+
+Theorem C09_checker_from_hex_sound : forall n s res,
+  chk_from_hex n s res = true <-> D_from_hex_string n s = Ok (option_map (mkLut n) res).
+Proof. exact CheckSoundText.chk_from_hex_sound. Qed.
+
+Theorem C09_checker_from_hex_wellformed : forall n s,
+  (chk_from_hex n s None = true <-> ~ hex_wellformed n s) /\
+  (forall t, chk_from_hex n s (Some t) = true -> hex_wellformed n s /\ wf n t /\ hexnum s = Some (Text.big t)).
+Proof. exact CheckSoundText.chk_from_hex_wellformed. Qed.
+
+Theorem C09_checker_from_hex_roundtrip : forall n t,
+  wf n t -> chk_from_hex n (spec_to_hex n t) (Some t) = true.
+Proof. exact CheckSoundText.chk_from_hex_roundtrip. Qed.
+
+Print Assumptions C09_checker_bytes_eqb_iff.
+Print Assumptions C09_checker_spec_to_hex_eq.
+Print Assumptions C09_checker_spec_to_bin_eq.
+Print Assumptions C09_checker_spec_fmt_eq.
+Print Assumptions C09_checker_spec_display_eq.
+Print Assumptions C09_checker_spec_parse_hex_some.
+Print Assumptions C09_checker_spec_parse_hex_none.
+Print Assumptions C09_checker_from_hex_sound.
+Print Assumptions C09_checker_from_hex_wellformed.
+Print Assumptions C09_checker_from_hex_roundtrip.
